@@ -18,6 +18,7 @@ typedef long int64;
 
 /* ghost state shared with the harness TUs */
 extern usize g_woff;    /* watched byte offset (inside whichever object Memory::copy/move writes) */
+extern usize g_woff2;   /* second watched byte offset (bytes that move twice) */
 extern usize g_cmp_wit; /* witness index produced by the Memory::compare contract */
 #define NV_HIT(dest, n) (g_woff >= NV_OFF(dest) && g_woff - NV_OFF(dest) < (n))
 #endif
